@@ -69,6 +69,20 @@ Proof.
   eexists. reflexivity.
 Qed.
 
+(* an I/O error of messageSetReader.readMessage: the batch keeps its offset, Close reports the
+   error and the library closes the connection *)
+Lemma io_error_keeps_offset fuel m m' co off last late acc :
+  msr_read decomp (S fuel) off m = MErr EIO m' ->
+  exists b',
+    batch_run_b decomp (S fuel) (mkBatch (Some m) true co off last None late) acc = Some (rev acc, EIO, b')
+    /\ b_off b' = off /\ batch_close b' = (off, true) /\ batch_close_err b' = Some EIO.
+Proof.
+  intros Hm. cbn [batch_run_b batch_read]. unfold batch_read1. cbn [b_err b_msgs b_off]. rewrite Hm.
+  eexists. split; [reflexivity|]. unfold set_b. cbn [b_off b_has_conn b_conn_off b_last b_late b_msgs b_err].
+  split; [reflexivity|]. unfold batch_close, batch_close_err. cbn [b_msgs b_err b_off closes_conn].
+  split; [destruct (msr_discard m'); reflexivity|destruct (msr_discard m'); reflexivity].
+Qed.
+
 Theorem cut_in_compressed_payload fuel m m1 co off last late acc :
   m_empty m = false -> read_header (S fuel) m = MOk tt m1 -> cut_payload m1 ->
   exists b',
@@ -77,15 +91,56 @@ Theorem cut_in_compressed_payload fuel m m1 co off last late acc :
 Proof.
   intros Hemp Hhdr Hcut. destruct (read_v2_cut (S fuel) m1 Hcut) as [m' Hr].
   destruct Hcut as (_ & f & ps & code & Hst & Hc & Hmag & _).
-  assert (Hm : msr_read decomp (S fuel) off m = MErr EIO m').
-  { unfold msr_read. rewrite Hemp. unfold bind at 1. rewrite Hhdr. unfold bind at 1, top at 1. rewrite Hst.
-    rewrite Hmag. cbn [Z.eqb Pos.eqb orb]. unfold bind at 1.
-    (* read_v2 re-reads the header: it is current *)
-    rewrite Hr. reflexivity. }
-  cbn [batch_run_b batch_read]. unfold batch_read1. cbn [b_err b_msgs b_off]. rewrite Hm.
-  eexists. split; [reflexivity|]. unfold set_b. cbn [b_off b_has_conn b_conn_off b_last b_late b_msgs b_err].
-  split; [reflexivity|]. unfold batch_close, batch_close_err. cbn [b_msgs b_err b_off closes_conn].
-  split; [destruct (msr_discard m'); reflexivity|destruct (msr_discard m'); reflexivity].
+  apply (io_error_keeps_offset fuel m m').
+  unfold msr_read. rewrite Hemp. unfold bind at 1. rewrite Hhdr. unfold bind at 1, top at 1. rewrite Hst.
+  rewrite Hmag. cbn [Z.eqb Pos.eqb orb]. unfold bind at 1. rewrite Hr. reflexivity.
+Qed.
+
+(* ---------------------------------------------------------------- the same for a v0 / v1 wrapper *)
+(* the header of a compressed v0 / v1 wrapper message is current; after the null key the value
+   length n is read, the response announces at least n more bytes, fewer arrive *)
+Definition cut_wrapper (m1 : msr) : Prop :=
+  m_empty m1 = false /\
+  exists f ps code s1 n s2,
+    m_stack m1 = f :: ps /\ 0 < f_count f /\ (h_magic (f_hdr f) = 0 \/ h_magic (f_hdr f) = 1)
+    /\ f_remain f <> 0
+    /\ (forall m, codec_of (f_hdr f) m = MOk (Some code) m)
+    /\ p_discard 4 (f_in f, f_remain f) = POk tt s1
+    /\ p_int 4 s1 = POk n s2
+    /\ 0 <= n <= snd s2 /\ len (fst s2) < n.
+
+Lemma v1_body_cut mn m1 : cut_wrapper m1 -> exists m', forall again, v1_body decomp again mn m1 = MErr EIO m'.
+Proof.
+  intros (_ & f & ps & code & s1 & n & s2 & Hst & Hc & Hmag & Hrem & Hcodec & Hd & Hi & Hn & Hshort).
+  destruct s1 as [i1 z1]. destruct s2 as [i2 z2]. cbn [fst snd] in *.
+  eexists. intros again.
+  unfold v1_body. unfold bind at 1, top at 1. rewrite Hst. cbv zeta.
+  unfold bind at 1. rewrite Hcodec.
+  unfold bind at 1. unfold lift at 1. rewrite Hst, Hd.
+  unfold bind at 1. unfold lift at 1. cbn [m_stack set_stack set_rd f_in f_remain fst snd]. rewrite Hi.
+  unfold bind at 1, top at 1. cbn [m_stack set_stack].
+  unfold bind at 1. cbn [set_rd f_remain fst snd].
+  replace (z2 <? n) with false by lia. unfold ret at 1.
+  unfold bind at 1. unfold lift at 1. cbn [m_stack set_stack set_rd f_in f_remain fst snd]. unfold p_decompress.
+  replace (n <? 0) with false by lia. replace (len i2 <? n) with true by lia.
+  reflexivity.
+Qed.
+
+Theorem cut_in_compressed_wrapper fuel m m1 co off last late acc :
+  m_empty m = false -> read_header (S (S fuel)) m = MOk tt m1 -> cut_wrapper m1 ->
+  exists b',
+    batch_run_b decomp (S (S fuel)) (mkBatch (Some m) true co off last None late) acc = Some (rev acc, EIO, b')
+    /\ b_off b' = off /\ batch_close b' = (off, true) /\ batch_close_err b' = Some EIO.
+Proof.
+  intros Hemp Hhdr Hcut. destruct (v1_body_cut off m1 Hcut) as [m' Hr].
+  destruct Hcut as (_ & f & ps & code & s1 & n & s2 & Hst & Hc & Hmag & Hrem & _).
+  apply (io_error_keeps_offset (S fuel) m m').
+  unfold msr_read. rewrite Hemp. unfold bind at 1. rewrite Hhdr. unfold bind at 1, top at 1. rewrite Hst.
+  assert (Hm : ((h_magic (f_hdr f) =? 0) || (h_magic (f_hdr f) =? 1)) = true) by (destruct Hmag as [E|E]; rewrite E; reflexivity).
+  rewrite Hm. unfold bind at 1.
+  cbn [read_v1]. rewrite Hst. replace (f_remain f =? 0) with false by lia.
+  unfold bind at 1. unfold read_header. unfold bind at 1, top at 1. rewrite Hst.
+  replace (0 <? f_count f) with true by lia. unfold ret at 1. rewrite Hr. reflexivity.
 Qed.
 
 End Close.
